@@ -24,6 +24,9 @@ type Master struct {
 	// PsyncReply decides the status line for a PSYNC (without CRLF), e.g. "+CONTINUE" or
 	// "+FULLRESYNC <id> <off>" or "-ERR ...". nil: "+CONTINUE".
 	PsyncReply func(p Psync) string
+	// PsyncExtra: bytes of the replication stream sent in the same write as the status line
+	// (a master's reply and the first backlog bytes usually share a TCP segment)
+	PsyncExtra func(p Psync) []byte
 	Password   string
 	Role       string // for INFO replication, default master
 	Unknown    map[string]bool // command names answered with Redis >= 5's "unknown command ... with args beginning with" error
@@ -165,6 +168,7 @@ func (m *Master) Serve(c net.Conn) {
 			m.mu.Lock()
 			m.psyncs = append(m.psyncs, p)
 			f := m.PsyncReply
+			fx := m.PsyncExtra
 			m.mu.Unlock()
 			line := "+CONTINUE"
 			if f != nil {
@@ -172,6 +176,9 @@ func (m *Master) Serve(c net.Conn) {
 			}
 			if line != "" {
 				reply = line + "\r\n"
+				if fx != nil {
+					reply += string(fx(p))
+				}
 			}
 		case "info":
 			body := "# Replication\r\nrole:" + m.Role + "\r\nconnected_slaves:1\r\nslave0:ip=127.0.0.1,port=0,state=online,offset=0,lag=0\r\n"
